@@ -51,6 +51,7 @@ fn main() {
     if cmd == "c01-case" { c01::replay(&argv[2]); return; }
     if cmd == "c09-obs" { c09::obs_child(&argv[2]); return; }
     if cmd == "c09-case" { c09::replay(&argv[2]); return; }
+    if cmd == "vm-witness" { vmrun::witness(&argv[2], &argv[3]); return; }
     if cmd == "c06-case" { c06::replay(&argv[2], argv.get(3).map(|s| s.as_str())); return; }
     if cmd == "gcprobe" { gcprobe::run(&argv[2]); return; }
     if cmd == "probe" { if argv[2] == "handles" { probes::handles(); } else if argv[2] == "c02-guard-children" { probes::guard_children(); } else if argv[2] == "closure-labels" { probes::closure_labels(); } else { probes::run(&argv[2]); } return; }
